@@ -185,6 +185,7 @@ func (p *Program) GenFunc(fc *FuncContract, prop string) (res *FuncResult) {
 	res = &FuncResult{Key: fc.Key(), Mode: fc.Mode}
 	vc := NewVC(fc.Mode, fc.Key())
 	vc.OpaqueMul = fc.OpaqueMul
+	vc.OpaqueDiv = fc.OpaqueDiv
 	res.VC = vc
 	ex := newExec(p, vc, prop)
 	ex.top = fc
@@ -461,6 +462,23 @@ func (p *Program) GenFunc(fc *FuncContract, prop string) (res *FuncResult) {
 		if hasProp(props, prop) {
 			ex.obl(&Obligation{Name: fc.Key() + ".panics.only-when", Kind: "panics", Props: props, Hyp: pr, Goal: spec, Note: "the function panics only under the stated condition", Inputs: inputs})
 			ex.obl(&Obligation{Name: fc.Key() + ".panics.whenever", Kind: "panics", Props: props, Hyp: spec, Goal: pr, Note: "the function panics whenever the stated condition holds", Inputs: inputs})
+		}
+	} else if fc.MayPanic {
+		for _, np := range fc.NoPanicFrom {
+			if !hasProp(np.Props, prop) {
+				continue
+			}
+			n := 0
+			for _, pe := range ex.panics {
+				if strings.Contains(pe.what, "."+np.Text+" panics (") || strings.HasPrefix(pe.what, "callee "+np.Text+" panics (") {
+					n++
+					ex.obl(&Obligation{Name: fmt.Sprintf("%s.nopanic.%s@%d", fc.Key(), sanitize(np.Text), n), Kind: "safety", Props: np.Props, Hyp: pe.reach, Goal: TFalse,
+						Note: "unreachable although the function may panic elsewhere: " + pe.what, Inputs: inputs})
+				}
+			}
+			if n == 0 {
+				panic(specError{"nopanic " + np.Text + ": no call of a function of that name with a panics clause"})
+			}
 		}
 	} else if !fc.MayPanic {
 		for i, pe := range ex.panics {
